@@ -12,6 +12,7 @@
     - field forward:  self.FIELD.NAME(a0, ...)            -- the receiver becomes &self.FIELD
     - vftable accessor (own):   self.vftable              -- load the pointer field
     - vftable accessor (base):  self.FIELD.vftable()      -- the accessor of the sub-object
+    - enum singleton:           (A as *const Self).read() -- the value stored at A
     Field addresses are the repr(C) offsets of RustLayout (no padding, by C01/C02). *)
 From Coq Require Import List NArith Bool String.
 From PyxisModel Require Import Base Grammar SemTypes Registry.
